@@ -331,6 +331,16 @@ pub fn views(_r: &dyn Runner, _tier: Tier, _st: &St, out: &mut Vec<Edge>) {
     for k in 0..16u8 { out.push(Edge::Bytes { variant: 6, k }); }
 }
 
+/// three vectors exchanging elements (C03)
+pub fn three(_r: &dyn Runner, _tier: Tier, st: &St, out: &mut Vec<Edge>) {
+    let len = st.len as usize;
+    for a in 0..=len { for b in a..=len { for rn in 0..=3u8 {
+        for pat in pats_upto((b - a).min(3) + 1) { for variant in [0u8, 1] { out.push(Edge::Three { variant, a: a as u8, b: b as u8, rn, pat }); } }
+        out.push(Edge::Three { variant: 3, a: a as u8, b: b as u8, rn, pat: Pat::none() });
+    } } }
+    for a in 0..len { for rn in 0..2u8 { out.push(Edge::Three { variant: 2, a: a as u8, b: a as u8, rn, pat: Pat::none() }); } }
+}
+
 fn movers(out: &mut Vec<Edge>) {
     out.push(Edge::Push(Api::Typed, Src::W));
     out.push(Edge::Pop(Api::Typed, Sink::Downcast));
@@ -405,7 +415,7 @@ pub fn edges_for(prop: Prop, tier: Tier, r: &dyn Runner, st: &St) -> Vec<Edge> {
         Prop::C11 => { elementwise(r, tier, st, &mut v); ranges(r, tier, st, true, &mut v); clones(r, tier, st, &mut v); }
         Prop::C10 => { capacity(r, tier, st, bounds(prop, tier).lmax, &mut v); elementwise(r, tier, st, &mut v); }
         Prop::C04 => { wrong_types(r, tier, st, &mut v); movers(&mut v); }
-        Prop::C03 | Prop::C05 => { elementwise(r, tier, st, &mut v); ranges(r, tier, st, true, &mut v); adaptors(r, tier, st, true, &mut v); clones(r, tier, st, &mut v); lazies(r, tier, st, &mut v); histories(r, tier, st, &mut v); }
+        Prop::C03 | Prop::C05 => { elementwise(r, tier, st, &mut v); ranges(r, tier, st, true, &mut v); adaptors(r, tier, st, true, &mut v); clones(r, tier, st, &mut v); lazies(r, tier, st, &mut v); histories(r, tier, st, &mut v); three(r, tier, st, &mut v); }
         _ => {}
     }
     v
